@@ -110,6 +110,9 @@ def issue_property(case, issue, all_issues):
             return case["verdict_prop"]
         return "C03"
     if at == "run":
+        if case.get("tag") == "params" and not issue.get("prune"):
+            # a template with its arguments must behave like the literally substituted program (which the model runs)
+            return "C12"
         if what == "satisfy_err":
             return "C18" if case.get("prune") else "C05"
         if what == "prune_accepts_failing":
